@@ -18,6 +18,7 @@ import sys
 import time
 
 ROOT = os.path.dirname(os.path.dirname(os.path.abspath(__file__)))
+SCRATCH_OUT = "/tmp/pgseedtest-out"
 
 
 def sh(cmd, cwd=None, env=None, timeout=3600):
@@ -89,7 +90,9 @@ def main():
     try:
         for c in checks:
             t0 = time.time()
-            rc, o = sh("./check %s --tier quick" % c, cwd=ROOT)
+            # (own output directory: the evidence files under /verif describe the unchanged tree)
+            os.makedirs(SCRATCH_OUT, exist_ok=True)
+            rc, o = sh("./check %s --tier quick" % c, cwd=ROOT, env={"VERIF_OUT": SCRATCH_OUT})
             viol = [l for l in o.split("\n") if l.startswith("VIOLATION")]
             meta["checks"][c] = {"exit": rc, "violation_line": viol[0] if viol else None, "wall_s": round(time.time() - t0, 1),
                                  "tail": o[-600:]}
@@ -97,7 +100,7 @@ def main():
                 # keep the replay next to the seed
                 rp = viol[0].split("replay=")[1].split()[0]
                 try:
-                    shutil.copy(os.path.join(ROOT, rp), os.path.join(out, "replay-%s.json" % c))
+                    shutil.copy(os.path.join(SCRATCH_OUT, rp), os.path.join(out, "replay-%s.json" % c))
                 except OSError:
                     pass
     finally:
